@@ -36,8 +36,10 @@ class DictAdapter(Adapter):
             node is None
             or not isinstance(node, ast.Dict)
             or any(key is None for key in node.keys)
+            or len(node.keys) != len(value)
         ):
-            # dict unpacking: the values can not be mapped to nodes
+            # dict unpacking or a key which is written twice: the values can
+            # not be mapped to nodes
             return [Item(value=value, node=None) for value in value.values()]
 
         result = []
